@@ -229,6 +229,9 @@ theorem g2_with_slots (st : St) (l : List SlotRec) : G2 st { st with slots := l 
 theorem g2_with_errno (st : St) (e : Int) : G2 st { st with errno := e } := G2.of_eq rfl rfl
 theorem g2_with_children (st : St) (l : List Proc) : G2 st { st with children := l } := G2.of_eq rfl rfl
 theorem g2_with_status (st : St) (x : Status) : G2 st { st with status := x } := G2.of_eq rfl rfl
+theorem g2_with_stillRunning (st : St) (b : Bool) : G2 st { st with stillRunning := b } := G2.of_eq rfl rfl
+theorem g2_with_inRun (st : St) (b : Bool) : G2 st { st with inRun := b } := G2.of_eq rfl rfl
+theorem g2_run_flags (st : St) : G2 st { st with stillRunning := true, inRun := true, runPolls := 0 } := G2.of_eq rfl rfl
 
 theorem g2_watchLater (st : St) (flags : Nat) (slot : Int) (puser : Nat) : G2 st (watchLater st flags slot puser).1 := by
   unfold watchLater
@@ -567,6 +570,7 @@ theorem step_runAct (st : St) (act : Act) : SigStep st (runAct st act) := by
         · exact SigStep.refl _
         · exact (g2_with_children _ _).step
       · exact SigStep.refl _
+    · exact (g2_with_stillRunning _ _).step
     · exact SigStep.refl _
 
 theorem step_runActs (acts : List Act) : ∀ st : St,
@@ -677,7 +681,9 @@ theorem step_sigCb (fuel : Nat) (st : St) (a : Nat) (s : Int) : SigStep st (sigC
     · exact step_fireUser _ _ _ _
     · split
       · exact step_onSigchld _ _ _
-      · exact SigStep.refl _
+      · split
+        · exact (g2_with_stillRunning _ _).step
+        · exact SigStep.refl _
   · exact SigStep.refl _
 
 theorem step_sigwatchLoopT (fuel : Nat) : ∀ (st : St) (s : Int) (this : Option Nat), SigStep st (sigwatchLoopT fuel st s this).1 := by
@@ -901,6 +907,48 @@ theorem step_tick (fuel : Nat) (st : St) (nohang : Bool) : SigStep st (tick fuel
       · exact ((g2_nextTimerMsec _).trans (g2_ppoll _ _)).step
       · exact ((g2_nextTimerMsec _).trans (g2_ppoll _ _)).step.trans (step_tickAfterPoll _ _ _)
 
+theorem g2_ppollRun (st : St) (t : Option Int) : G2 st (ppollRun st t).1 := by
+  unfold ppollRun
+  split
+  · exact g2_ppoll _ _
+  · split
+    · exact ((g2_ppoll st t).trans (G2.of_eq rfl rfl : G2 (ppoll st t).1
+        { (ppoll st t).1 with runPolls := (ppoll st t).1.runPolls + 1, stillRunning := false })).trans (g2_emit _ _)
+    · exact (g2_ppoll st t).trans (G2.of_eq rfl rfl : G2 (ppoll st t).1
+        { (ppoll st t).1 with runPolls := (ppoll st t).1.runPolls + 1 })
+
+theorem step_runIter (fuel : Nat) (st : St) : SigStep st (runIter fuel st) := by
+  unfold runIter
+  split
+  · exact SigStep.refl _
+  · split
+    · exact (g2_nextTimerMsec _).step
+    · split
+      · exact ((g2_nextTimerMsec _).trans (g2_ppollRun _ _)).step
+      · exact ((g2_nextTimerMsec _).trans (g2_ppollRun _ _)).step.trans (step_tickAfterPoll _ _ _)
+
+theorem step_runLoop (fuel : Nat) (n : Nat) : ∀ st : St, SigStep st (runLoop fuel n st) := by
+  induction n with
+  | zero => intro st; unfold runLoop; exact step_outOfFuel st
+  | succ k ih =>
+    intro st
+    unfold runLoop
+    split
+    · exact SigStep.refl _
+    · split
+      · exact SigStep.refl _
+      · exact (step_runIter _ _).trans (ih _)
+
+theorem step_run (fuel : Nat) (st : St) : SigStep st (run fuel st) := by
+  have h0 : SigStep st { (watchSignal st 2 0 (-5)).1 with stillRunning := true, inRun := true, runPolls := 0 } :=
+    (step_watchSignal st 2 0 (-5)).trans (g2_run_flags _).step
+  unfold run
+  split
+  · exact SigStep.refl _
+  · split
+    · exact h0.trans (step_runLoop _ _ _)
+    · exact ((h0.trans (step_runLoop _ _ _)).trans (g2_with_inRun _ _).step).trans (step_watchCancel _ _)
+
 theorem g2_destroyNotify (st : St) (a : Nat) : G2 st (destroyNotify st a) := by
   unfold destroyNotify
   split
@@ -959,8 +1007,9 @@ theorem sinv_applyOp (st : St) (op : Op) (i : SInv st) : SInv (applyOp st op) :=
         · exact SInv.of_same (st := s0) rfl rfl i0
         · exact SInv.of_same (st := s0) rfl rfl i0
         · exact SInv.of_same (st := s0) rfl rfl i0
-        · exact (step_tick _ _ _ i0).inv
-        · exact (step_tick _ _ _ i0).inv
+        · exact (((g2_with_stillRunning s0 true).step.trans (step_tick _ _ _)) i0).inv
+        · exact (((g2_with_stillRunning s0 true).step.trans (step_tick _ _ _)) i0).inv
+        · exact (step_run _ _ i0).inv
         · exact sinv_destroy _ i0
         · exact i0
 
